@@ -32,17 +32,35 @@ def run(ctx):
     cfg = mc.write_cfg(ctx, "MC_Markup_run.cfg", MaxLen=maxlen, Alpha='"%s"' % alpha, EmitBeh="TRUE")
     r = ctx.tlc("MC_Markup", cfg="MC_Markup_run.cfg", files=[("MC_Markup_run.cfg", cfg)], workers=8, timeout=1500,
                 label="MC_Markup (A = B, text, ranges; alphabet %s, <= %d items)" % (alpha, maxlen))
-    behs = r.printed("BEH")
-    if not behs:
+    if not r.printed_to_file("BEH", ctx.path("beh.ndjson")):
         raise vlib.MachineryError("MC_Markup printed no line to replay")
-    vlib.write_ndjson(ctx.path("beh.ndjson"), behs)
+    # markers directly after markers / replacements / swallowed blanks (alphabet "n") and a
+    # name opened while it is open, under a third marker (alphabet "m")
+    extra = {}
+    for a, ml in (("n", 7 if thorough else 6), ("m", 8 if thorough else 7)):
+        name = "MC_Markup_%s.cfg" % a
+        c = mc.write_cfg(ctx, name, MaxLen=ml, Alpha='"%s"' % a, EmitBeh="TRUE")
+        ra = ctx.tlc("MC_Markup", cfg=name, files=[(name, c)], workers=8, timeout=2400,
+                     label="MC_Markup (alphabet %s, <= %d items)" % (a, ml))
+        nb = ra.printed_to_file("BEH", ctx.path("beh2.ndjson"), mode="a")
+        if not nb:
+            raise vlib.MachineryError("MC_Markup (alphabet %s) printed no line to replay" % a)
+        extra[a] = {"max_items": ml, "states": ra.distinct, "lines": nb}
     nonvac = mc.nonvacuity(ctx, ["Bug_BytePositions", "Bug_NoTrimAdjust", "Bug_CloseAllClosesLast", "Bug_NoSwallow"])
 
     p = ctx.harness(["markup", "replay", "--in", ctx.path("beh.ndjson"), "--out", ctx.path("diffs.ndjson"),
                      "--variants", 3 if thorough else 2], timeout=1500)
     rstats = mc.last_json(p.stdout)
-    ctx.log("spec->code: %d lines, %d parses, %d differ" % (rstats["cases"], rstats["runs"], rstats["diffs"]))
-    mc.report_diffs(ctx, vlib.read_ndjson(ctx.path("diffs.ndjson")), "replay")
+    p2 = ctx.harness(["markup", "replay", "--in", ctx.path("beh2.ndjson"), "--out", ctx.path("diffs2.ndjson"),
+                      "--variants", 2 if thorough else 1], timeout=1500)
+    r2 = mc.last_json(p2.stdout)
+    for k in ("cases", "runs", "diffs", "multibyte_runs", "edge_whitespace_cases", "same_name_nesting_cases",
+              "pairing_first_only", "pairing_last_only"):
+        rstats[k] += r2[k]
+    ctx.log("spec->code: %d lines, %d parses, %d differ; %d lines with a name nested in itself: %d only explained by pairing "
+            "with the first open marker, %d only by the last" % (rstats["cases"], rstats["runs"], rstats["diffs"],
+            rstats["same_name_nesting_cases"], rstats["pairing_first_only"], rstats["pairing_last_only"]))
+    mc.report_diffs(ctx, vlib.read_ndjson(ctx.path("diffs.ndjson")) + vlib.read_ndjson(ctx.path("diffs2.ndjson")), "replay")
     samples.append({"replayed_line": mc.cps_to_str(rstats["sample"])})
 
     # ------------------------------------------------------------------ C->S
@@ -60,7 +78,10 @@ def run(ctx):
         replayed_lines_with_edge_whitespace=rstats["edge_whitespace_cases"],
         random_lines=tstats["cases"], trace_events=tstats["events"], trace_events_via_runner=tstats["runner_events"],
         trace_events_checked=tstats["checked"], runner_lines_skipped=tstats["runner_skipped"],
-        random_lines_nontrivial=tstats["nontrivial"],
+        random_lines_nontrivial=tstats["nontrivial"], random_lines_same_name_nesting=tstats["same_name_nesting"],
+        adjacency_and_nesting_alphabets=extra, replayed_lines_same_name_nesting=rstats["same_name_nesting_cases"],
+        pairing_of_same_name_nesting={"replay_first_only": rstats["pairing_first_only"], "replay_last_only": rstats["pairing_last_only"],
+                                      "trace": tstats["pairing"]},
         evaluations=rstats["runs"] + tstats["events"], distinct_nontrivial=tstats["nontrivial"],
         rule="spec->code: every item sequence of the C13 region with <= %d items over the %d-item alphabet '%s', after each of 4 starts (no prefix or one of 3 `Name:` prefixes); "
              "code->spec: random lines, non-trivial = at least two markers open at once (nesting/overlap) and a multi-byte character" % (
